@@ -3,6 +3,7 @@ import ScenicModel.Model.Support
 import ScenicModel.Model.Delayed
 import ScenicModel.Gen.ExprTables
 import ScenicModel.Gen.SupportFormulas
+import ScenicModel.Gen.DelayedShapes
 import Driver.Util
 /-!
 Line protocol for the C05 models (expression forest, supports); tables are the ones regenerated from /repo.
@@ -10,6 +11,8 @@ Line protocol for the C05 models (expression forest, supports); tables are the o
   ev <n> <val>*n <expr>     ->  <supported 0/1> | <python value> | <scenic value> | <forest shape>
   sup <n> <ival>*n <sexpr>  ->  <lo> <hi>     (support interval computed by the model; `-` = None, `exc` = exception)
   wo <n> spec*n             ->  1/0: `Delayed.wellOrdered` of an evaluation order (spec ::= <k> dep*k <m> set*m)
+  dl <dval>                 ->  <required props> | <read props>   (`Delayed.required` on the generated shapes / `Delayed.reads`)
+                                dval ::= c | p <i> | n <kind 0..3> <npos> <nkw> dval*(npos+nkw)
   tables                    ->  a dump of the generated tables
 
 Token syntax (prefix, space separated):
@@ -192,6 +195,28 @@ def pIval : P Scenic.Support.Supp
     do pure ((← f a, ← f b), ts)
   | _ => none
 
+/-- dval ::= c | p <i> | n <kind> <npos> <nkw> dval*(npos+nkw) -/
+partial def pDVal : P Scenic.Delayed.DVal
+  | "c" :: ts => some (.const 1, ts)
+  | "p" :: i :: ts => i.toNat?.map fun i => (.prop i, ts)
+  | "n" :: k :: np :: nk :: ts => do
+      let kind : Scenic.Delayed.Kind ← match k with
+        | "0" => some .fnCall | "1" => some .dCall | "2" => some .opCall | "3" => some .attrGet | _ => none
+      let np ← np.toNat?
+      let nk ← nk.toNat?
+      let rec go (n : Nat) (ts : List String) (acc : List Scenic.Delayed.DVal) : Option (List Scenic.Delayed.DVal × List String) :=
+        match n with
+        | 0 => some (acc.reverse, ts)
+        | n + 1 => do let (d, ts) ← pDVal ts; go n ts (d :: acc)
+      let (ps, ts) ← go np ts []
+      let (ks, ts) ← go nk ts []
+      let args := (ps.map (false, ·) ++ ks.map (true, ·)).foldr (fun a rest => Scenic.Delayed.DVal.arg a.1 a.2 rest) .nil
+      pure (.call kind 0 args, ts)
+  | _ => none
+
+def showNats (l : List Nat) : String :=
+  " ".intercalate ((l.mergeSort (· ≤ ·)).eraseDups.map toString)
+
 def handle : List String → String
   | "ev" :: n :: rest => (do
       let n ← n.toNat?
@@ -220,6 +245,10 @@ def handle : List String → String
       let (specs, ts) ← pMany pSpec n rest
       if !ts.isEmpty then none
       pure (if Scenic.Delayed.wellOrdered specs then "1" else "0")).getD "bad-op"
+  | "dl" :: rest => (do
+      let (d, ts) ← pDVal rest
+      if !ts.isEmpty then none
+      pure s!"{showNats (Scenic.Delayed.required Scenic.Gen.delayedShapes .fnCall true d)} | {showNats (Scenic.Delayed.reads d)}").getD "bad-op"
   | ["tables"] =>
     let es := T.simp.map fun e => s!"{dunderName e.op e.refl}:{e.const}"
     let vs := T.vecOps.map fun e => s!"{dunderName e.1 e.2.1}:{if e.2.2 then 1 else 0}"
